@@ -74,6 +74,8 @@ class Ctx:
 
 def run_property(prop: str, repo_root: str, tier: str = "quick", ctx: Ctx = None) -> Result:
     """Run the rules of one property on one tree (no printing, no files)."""
+    if sys.getrecursionlimit() < 20000:
+        sys.setrecursionlimit(20000)
     if ctx is None:
         repo = Repo(repo_root)
         repo.check_dynamic_features()
@@ -86,6 +88,7 @@ def run_property(prop: str, repo_root: str, tier: str = "quick", ctx: Ctx = None
 
 
 def main(argv=None) -> int:
+    sys.setrecursionlimit(20000)
     ap = argparse.ArgumentParser(prog="g3dsa.check")
     ap.add_argument("prop", nargs="?")
     ap.add_argument("--tier", default=os.environ.get("VERIF_TIER", "quick"), choices=["quick", "thorough"])
